@@ -138,14 +138,17 @@ def r_analyze_adjacent(ctx, repo):
                 raise AnalysisError('analyze_scalar: interpretation budget exceeded')
             bad = [w for w in must_forbid if got[w] != {False}]
             n += 1
+            if not bad:
+                rule.ok(f.loc(ret), 'text containing %r, allow_unicode=%s: %s false on every path'
+                        % (''.join(chars), au, ', '.join(x.replace('allow_', '') for x in must_forbid)))
             if bad:
                 rule.fail('%s|adjacent|%s|%s' % (f.qualname, '+'.join('%04x' % ord(c) for c in chars), ','.join(bad)),
                           f.module.rel, ret.lineno, f.qualname, 'ScalarAnalysis(%s=...)' % bad[0],
                           'for a text containing %r (allow_unicode=%s) some path leaves %s possibly true: %s'
                           % (''.join(chars), au, ', '.join(bad), why))
                 break
-    if not rule.failed:
-        rule.ok(f.loc(ret), '%d two-character scenarios: the style permissions are withdrawn on every path' % n)
+    ctx.extra['R-ANALYZE-ADJACENT'] = {'scenarios': n, 'function': f.qualname,
+                                       'method': 'two passes of the character loop + the code after it, three-valued'}
     return rule
 
 
@@ -239,6 +242,7 @@ def r_foreign_node_lists_intact(ctx, repo, modules=('constructor',)):
                     if is_foreign_value(s.args[-1], F0) and s.func.value.id not in F1:
                         F1.add(s.func.value.id); changed = True
         # sinks
+        n_f, failed_f = n, rule.failed
         for s in stmts:
             target, how = None, None
             if isinstance(s, ast.Call) and isinstance(s.func, ast.Attribute) and s.func.attr in MUTATORS:
@@ -265,11 +269,13 @@ def r_foreign_node_lists_intact(ctx, repo, modules=('constructor',)):
                           'the list mutated here (%s) may be the child list of a node other than %r - a merge source or an alias '
                           'target, which every other reference to that node shares: a later use of the same anchor sees the edit'
                           % (how, own))
+        if n > n_f and rule.failed == failed_f:
+            rule.ok(f.loc(), '%s: %d in-place mutations, none on a list that may belong to a node other than %r (foreign lists: %s)'
+                    % (f.name, n - n_f, own, ', '.join(sorted(F0)) or '-'))
     if n < MIN_MUTATIONS:
         raise AnalysisError('R-FOREIGN-NODE-LISTS-INTACT examined %d in-place mutations in the constructor, fewer than %d: the '
                             'rule no longer matches the code it was written for' % (n, MIN_MUTATIONS))
-    if not rule.failed:
-        rule.ok('constructor.py', '%d in-place mutations: none on a list that may belong to a foreign node' % n)
+    ctx.extra['R-FOREIGN-NODE-LISTS-INTACT'] = {'in_place_mutations_examined': n}
     return rule
 
 
@@ -378,8 +384,9 @@ def r_class_state_writers_offline(ctx, repo, modules=None):
                           'class-level state then depends on what was loaded or dumped before, is inherited by subclasses through '
                           'attribute lookup and is not refreshed when a base class registers something later' % (g.qualname, what))
     if not rule.failed:
-        rule.ok('package', '%d classmethods store on their class (%s); no instance method calls one of them'
-                % (len(direct), ', '.join(sorted(f.name for f in direct))))
+        callers = len([g for g in funcs if g.cls is not None and not g.is_classmethod])
+        for f in sorted(direct, key=lambda f: f.qualname):
+            rule.ok(f.loc(), '%s stores on its class; none of the %d instance methods of the package calls it' % (f.qualname, callers))
     return rule
 
 
@@ -478,6 +485,7 @@ def r_event_marks_from_tokens(ctx, repo):
                     for v in assigns[x.id]:
                         out.extend(state_reads(v, seen))
             return out
+        n0, failed0 = n, rule.failed
         for call in walk_function(f.node):
             if not (isinstance(call, ast.Call) and isinstance(call.func, ast.Name) and call.func.id.endswith('Event')):
                 continue
@@ -496,8 +504,9 @@ def r_event_marks_from_tokens(ctx, repo):
                               'at text of an earlier node or document instead of at its own tokens (positions are no longer monotone)'
                               % (call.func.id, me, bad[0].attr))
                     break
+        if n > n0 and rule.failed == failed0:
+            rule.ok(f.loc(), '%s: %d event marks, all computed from tokens of the same step or a mark parameter' % (f.name, n - n0))
     if n < 20:
         raise AnalysisError('R-EVENT-MARKS-FROM-TOKENS: only %d event marks examined in the parser' % n)
-    if not rule.failed:
-        rule.ok('parser.Parser', '%d event marks: all computed from tokens of the same step' % n)
+    ctx.extra['R-EVENT-MARKS-FROM-TOKENS'] = {'event_marks_examined': n}
     return rule
